@@ -3,7 +3,7 @@
     engine.rs ShardWatchTracker; marks = the mark_modified call sites, after the repair
     a8466ae which added the missing ones). *)
 From Ferrous Require Import Base.Bytes Generated Model.Resp Model.Types Model.Server
-  Model.Strings Proofs.ServerFacts Proofs.MarksFacts.
+  Model.Strings Model.Streams Proofs.ServerFacts Proofs.MarksFacts Proofs.StreamFacts Proofs.GroupFacts Proofs.GroupMarksFacts.
 Open Scope Z_scope.
 
 (** Counter soundness: from a WATCH on (active watcher in the key's shard) any later
@@ -64,6 +64,37 @@ Theorem c08_unmarked_unchanged :
   bmem k (marks_strings d d' name parts r) = false ->
   get_entry d' k = get_entry d k.
 Proof. exact marks_complete_strings. Qed.
+
+(** The same for the consumer-group commands (after ed8ba04, formerly finding
+    stream-group-writes-unmarked): XGROUP CREATE / DESTROY / CREATECONSUMER / DELCONSUMER /
+    SETID, XACK, XCLAIM, XPENDING, XINFO and XREADGROUP mark every key whose stored entry
+    (stream, groups, pending entries, cursor, consumers, deadline, existence) they change.
+    For XREADGROUP the statement covers the keys it does not read with an explicit ID
+    ([xreadgroup_plan] lists the resolved reads, [sid_max] standing for ">"): a history
+    read that reports nothing still registers the reader - [c08_group_reread_unmarked_refuted]. *)
+Theorem c08_unmarked_unchanged_groups :
+  forall now d name parts r d' k,
+  (name = bs "XGROUP" /\ h_xgroup now d parts = (r, d')) \/ (name = bs "XACK" /\ h_xack now d parts = (r, d')) \/
+  (name = bs "XCLAIM" /\ h_xclaim now d parts = (r, d')) \/ (name = bs "XPENDING" /\ h_xpending now d parts = (r, d')) \/
+  (name = bs "XINFO" /\ h_xinfo now d parts = (r, d')) \/
+  (name = bs "XREADGROUP" /\ h_xreadgroup now d parts = (r, d') /\
+   forall a, In (k, a) (xreadgroup_plan now d parts) -> a = sid_max) ->
+  bmem k (marks_streams d d' name parts r) = false ->
+  get_entry d' k = get_entry d k.
+Proof. exact marks_complete_groups. Qed.
+
+(** finding group-reread-unmarked (open): XREADGROUP with an explicit ID by a consumer that owns
+    nothing reports no entry, marks nothing, and yet the stored value changed (the reader is
+    now a consumer of the group) *)
+Example c08_group_reread_unmarked_refuted :
+  let d := snd (run_cmds 0 empty_db [cmd ["XADD"; "wk"; "5-0"; "f"; "v"]%string; cmd ["XGROUP"; "CREATE"; "wk"; "g"; "0"]%string]) in
+  let parts := cmd ["XREADGROUP"; "GROUP"; "g"; "c9"; "STREAMS"; "wk"; "0"]%string in
+  match exec_streams 0 d (bs "XREADGROUP") parts None with
+  | Some (r, d') => r = FArray [] /\ marks_streams d d' (bs "XREADGROUP") parts r = [] /\
+                    get_entry d' (bs "wk") <> get_entry d (bs "wk")
+  | None => False
+  end.
+Proof. vm_compute. split; [reflexivity|]. split; [reflexivity|]. intros H. discriminate H. Qed.
 
 (** Every code path that can change a key's value or deadline bumps the counter:
     obligations over the census of engine.rs regenerated on every run - each mutating
